@@ -24,13 +24,13 @@ def one_case(chk, s, rng, c):
     aggr = src.chains[0]["time"]
     raw_src = src.tlv()
     t = req["target"]
-    pub_req = None if t == "head" else (src.cal["pub"] if (t == "equal" and src.cal) else aggr + 1000 if t == "equal" else aggr if t == "ataggr" else aggr + 7000 + rng.randrange(50) if t in ("later", "pubrec") else aggr - 10)
+    pub_req = None if t == "head" else (src.cal["pub"] if (t == "equal" and src.cal) else aggr + 1000 if t == "equal" else aggr if t == "ataggr" else aggr + 7000 + rng.randrange(50) if t in ("later", "pubrec", "pubrecBad") else aggr - 10)
     pre = None
-    if t == "pubrec":      # the publication record to attach must carry the root of the chain the extender is going to return
+    if t in ("pubrec", "pubrecBad"):      # the publication record to attach must carry the root of the chain the extender is going to return
         st = rng.getstate()
         _, pre = wire.ext_reply(wire_good(), rng, 1, src, aggr, pub_req)
         rng.setstate(st)
-        cmd = "EXTEND %s pub:%d:%s" % (raw_src.hex(), pub_req, pre["root"].hex())
+        cmd = "EXTEND %s pub:%d:%s" % (raw_src.hex(), pub_req, (pre["root"] if t == "pubrec" else sigcase.flip(pre["root"])).hex())
     else:
         cmd = "EXTEND %s %s" % (raw_src.hex(), "head" if t == "head" else str(pub_req))
     out = s.cmd(cmd)
@@ -53,7 +53,7 @@ def one_case(chk, s, rng, c):
     if bad:
         chk.violation("request:extend:" + bad[0].split()[0], "extension request on the wire is wrong: %s" % "; ".join(bad), dict(case=c, log=s.log[-10:]))
     rid = int.from_bytes(f["payload"].get(1, b""), "big")
-    reply, info = wire.ext_reply(a, rng, rid, src, aggr, pub_req)
+    reply, info = wire.ext_reply(a, rng, rid, src, aggr, pub_req, alter_without_cal=(t in ("pubrec", "pubrecBad")))
     if reply == "unrealisable":
         reply, info = wire.ext_reply(dict(a, rlinks="agree", what="close"), rng, rid, src, aggr, pub_req)
         c = dict(c, result="error")
